@@ -14,13 +14,18 @@ def run(tier, seed, args):
     deep = tier == "thorough"
     # (A)+(B) writer side
     inv = ["C11_Between", "C11_FlushPoint", "C11_Position"]
-    bad, n1 = pagecommon.mc_and_replay(v, wd, exe, "MC_PageW", {"MaxDepth": 4 if deep else 3, "MaxPages": 4},
+    bad, n1 = pagecommon.mc_and_replay(v, wd, exe, "MC_PageW", {"MaxDepth": 4 if deep else 3, "MaxPages": 4, "Merge": False},
                                        inv, [], "page-replay-w", "mcw", constraint="Bound")
     pagecommon.confirm_w(v, wd, exe, bad)
     # (A)+(B) reader side (no altered pages here; C07 explores those)
-    bad, n2 = pagecommon.mc_and_replay(v, wd, exe, "MC_PageR", {"MaxDepth": 4 if deep else 3, "MaxCorrupt": 0},
-                                       ["C11_ReadCache"], ["PropRead", "PropSeek"], "page-replay-r", "mcr")
+    bad, n2 = pagecommon.mc_and_replay(v, wd, exe, "MC_PageR", {"MaxDepth": 4 if deep else 3, "MaxCorrupt": 0, "Merge": True},
+                                       ["C11_ReadCache", "MC_ReadCache"], ["PropRead", "PropSeek"], "page-replay-r", "mcr")
     pagecommon.confirm_r(v, wd, exe, bad)
+    if deep:
+        bad, n3 = pagecommon.mc_and_replay(v, wd, exe, "MC_PageR", {"MaxDepth": 3, "MaxCorrupt": 0, "Merge": False},
+                                           ["C11_ReadCache", "MC_ReadCache"], ["PropRead", "PropSeek"], "page-replay-r", "mcr_tree")
+        pagecommon.confirm_r(v, wd, exe, bad)
+        n2 += n3
     # (C) randomised long histories, boundary-focused, validated by TLC at the real constants
     runs, ops = (200, 300) if deep else (24, 150)
     batches = 10 if deep else 1
